@@ -20,7 +20,7 @@ import srcsets
 
 
 def MUT(name, macro, extra=(), jobs=16, tq=250):
-    return {'name': 'm_' + name, 'src': 'C06/h_mutate.cpp', 'entry': 'h_mutate', 'repo_srcs': srcsets.SERDE, 'defines': [macro] + list(extra), 'covers': [1, 2] if 'TRUNCATE' not in extra else [2], 'jobs': jobs, 'opts': {'fork-ptr': 1, 'max-enum': 2000, 'havoc-sha': 1},
+    return {'name': 'm_' + name, 'src': 'C06/h_mutate.cpp', 'entry': 'h_mutate', 'repo_srcs': srcsets.SERDE + srcsets.ADDONS, 'defines': [macro] + list(extra), 'covers': [1, 2] if 'TRUNCATE' not in extra else [2], 'jobs': jobs, 'opts': {'fork-ptr': 1, 'max-enum': 2000, 'havoc-sha': 1},
             'obligations': ['%s decoder as a whole on %s of a valid encoding produced by the real encoder: no out-of-bounds access / use-after-free / abort / exception; failure leaves an invalid ValidationState; a successful decode gives an object whose estimateSize() equals the length of its own encoding'
                             % (name, 'every proper prefix' if 'TRUNCATE' in extra else 'every single-byte mutation (every position x every byte value)')],
             'rungs': {'quick': [{'defines': ['NMUT=1'], 'bound': ('every proper prefix of the valid encoding' if 'TRUNCATE' in extra else 'one mutated byte: every position (case split) x all 256 values (symbolic); positions inside base58 address texts and inside the embedded BTC transaction are excluded (SHA-256 of symbolic data); address decoding of arbitrary bytes is decided byte-first by h_address'), 'timeout': tq}],
@@ -28,6 +28,7 @@ def MUT(name, macro, extra=(), jobs=16, tq=250):
 
 
 MUTATE_HARNESSES = [MUT('vbktx', 'M_VBKTX'), MUT('vbkpoptx', 'M_POPTX'), MUT('atv', 'M_ATV'), MUT('vtb', 'M_VTB'), MUT('popdata', 'M_POPDATA'),
+                    MUT('stored_btc', 'M_SBTC', jobs=8), MUT('stored_vbk', 'M_SVBK', jobs=8), MUT('stored_alt', 'M_SALT', jobs=8), MUT('stored_alt_trunc', 'M_SALT', extra=('TRUNCATE',), jobs=4),
                     MUT('atv_trunc', 'M_ATV', extra=('TRUNCATE',), jobs=8), MUT('vtb_trunc', 'M_VTB', extra=('TRUNCATE',), jobs=8), MUT('popdata_trunc', 'M_POPDATA', extra=('TRUNCATE',), jobs=8)]
 HARNESSES += MUTATE_HARNESSES
 EXPLANATION = 'Real decoders/validators are executed symbolically over arbitrary byte strings up to the stated length; every memory access is bounds-checked by the engine.'
